@@ -65,7 +65,7 @@ def gen_api_tree(rnd, depth=0, xmlns_attr=False, special=False):
     """content tree (see common.cnode) to be built through the API: any namespace on any element/attribute"""
     ns = rnd.choice(["", "", "u1", "u2", "u3", SVG, AMP_URI])
     if special and rnd.random() < .15:
-        ns = "a&b"
+        ns = rnd.choice(["a&b", "http://www.w3.org/2000/xmlns/"])
     attrs = {}
     for _ in range(rnd.randint(0, 2)):
         if rnd.random() < .12:
@@ -168,6 +168,71 @@ def make_root(case, build):
             tags[case["at"] % len(tags)].append_children(child)
         return root
     return build(case["tree"])
+
+
+XMLNS_NS = "http://www.w3.org/2000/xmlns/"
+NAME_SAMPLES = [("", "xmlns"), ("u1", "xmlns"), (XMLNS_NS, "k"), (XMLNS_NS, "xmlns"), ("", "k"), ("u1", "k"), ("", "xmlnsx"),
+                ("", "xml"), ("", "Xmlns"), ("u1", "xmln"), (XML_NS, "lang")]
+PI_SAMPLES = [" x", "\tx", "\nx", "x ", " ", "\n", "", "x", "\u00a0x", "a b", "  a", "a\n"]
+
+
+def check_validators(ctx, req):
+    """TagAttributes._validate_name / ProcessingInstructionNode._validate_content: the generated Gallina functions against
+    the implementation at every API entry point that creates an attribute or sets PI content.  A value the generated
+    validator refuses and an entry point accepts is a failing input (the name / content cannot be carried by XML)."""
+    from common import cstr
+    terms = ["[if attribute_name_refused %s %s then 1 else 0]%%N" % (cstr(ns), cstr(n)) for ns, n in NAME_SAMPLES]
+    terms += ["[if pi_content_refused %s then 1 else 0]%%N" % cstr(c) for c in PI_SAMPLES]
+    vals = ctx.coq_eval(ctx.prop.lower() + "_validators", req + "From Delb.Gen Require Import GenNsValidators.\n", terms)
+
+    def refuses(f):
+        try:
+            f()
+        except ValueError:
+            return True
+        return False
+
+    def rename(ns, n):
+        r = impl.new_tag_node("r", {"q": "v"})
+        a = r.attributes["q"]
+        a.namespace = ns
+        a.local_name = n
+
+    def pi_setter(c):
+        p = impl.new_processing_instruction_node("t", "x")
+        p.content = c
+    for (ns, n), v in zip(NAME_SAMPLES, vals[:len(NAME_SAMPLES)]):
+        routes = {
+            "TagAttributes.__setitem__": lambda: impl.new_tag_node("r").attributes.__setitem__((ns, n), "v"),
+            "new_tag_node": lambda: impl.new_tag_node("r", {(ns, n): "v"}),
+            "tag() definition": lambda: impl.new_tag_node("r").append_children(impl.tag("c", {(ns, n): "v"})),
+            "TagAttributes.update": lambda: impl.new_tag_node("r").attributes.update({(ns, n): "v"}),
+            "Attribute rename": lambda: rename(ns, n),
+        }
+        for route, f in routes.items():
+            ctx.count(1, "validator/attribute-name")
+            got = refuses(f)
+            if v is None:
+                ctx.mismatch("validator evaluation", "coqc failed")
+            elif got != (v == [1]):
+                case = {"route": "validator", "entry": route, "namespace": ns, "name": n}
+                if v == [1]:
+                    ctx.fail("%s accepts the attribute name (%r, %r), which XML reserves for namespace declarations" % (route, ns, n), case)
+                else:
+                    ctx.mismatch("attribute_name_refused vs " + route, case)
+    for c, v in zip(PI_SAMPLES, vals[len(NAME_SAMPLES):]):
+        for route, f in {"new_processing_instruction_node": lambda: impl.new_processing_instruction_node("t", c),
+                         "ProcessingInstructionNode.content": lambda: pi_setter(c)}.items():
+            ctx.count(1, "validator/pi-content")
+            got = refuses(f)
+            if v is None:
+                ctx.mismatch("validator evaluation", "coqc failed")
+            elif got != (v == [1]):
+                case = {"route": "validator", "entry": route, "content": c}
+                if v == [1]:
+                    ctx.fail("%s accepts PI content %r, whose leading white space XML cannot carry" % (route, c), case)
+                else:
+                    ctx.mismatch("pi_content_refused vs " + route, case)
 
 
 def caller_term(m):
